@@ -6,9 +6,30 @@ import re
 import shutil
 import time
 
-from .common import WORK, VERIF, REPO, REPLAY_DIR, run, log
+from .common import WORK, VERIF, REPO, REPLAY_DIR, ALT, ALT_TAG, run, log
 
 KANI_CRATE = os.path.join(VERIF, "kani")
+
+
+def _alt_crate():
+    """Copy of the harness crate whose path dependencies point at $VERIF_REPO."""
+    dst = os.path.join(WORK, "kani-crate-" + ALT_TAG)
+    shutil.rmtree(dst, ignore_errors=True)
+    shutil.copytree(KANI_CRATE, dst, ignore=shutil.ignore_patterns("target"))
+    ct = os.path.join(dst, "Cargo.toml")
+    with open(ct) as f:
+        t = f.read()
+    with open(ct, "w") as f:
+        f.write(t.replace('"/repo/', '"%s/' % REPO.rstrip("/")))
+    lock = os.path.join(dst, "Cargo.lock")
+    if os.path.exists(lock):
+        os.unlink(lock)
+    shutil.copy(os.path.join(REPO, "Cargo.lock"), lock)
+    return dst
+
+
+if ALT:
+    KANI_CRATE = _alt_crate()
 # /repo is always compiled with the verification hooks on (one add-only hook:
 # lexical_util::format::verif_format_error). Constant flags keep the build cache valid.
 HOOK_ENV = {"RUSTFLAGS": "--cfg alexhuszagh_rust_lexical_verif"}
@@ -30,7 +51,7 @@ FEATURE_SETS = {
 
 
 def target_dir(fs):
-    return os.path.join(WORK, "kani-" + fs)
+    return os.path.join(WORK, "kani-" + fs + ("-" + ALT_TAG if ALT else ""))
 
 
 def ensure_lock():
